@@ -21,8 +21,8 @@ _NUM = (int, bool, SymInt, SymBool)
 def _is_state_value(v):
     if isinstance(v, _NUM):
         return True
-    if isinstance(v, list) and v and all(isinstance(e, _NUM) for e in v):
-        return True
+    if isinstance(v, list) and all(isinstance(e, _NUM) for e in v):
+        return True                      # (an empty list counts: capture buffers start empty)
     return False
 
 
